@@ -233,7 +233,7 @@ class FilterbankBlock(BaseBlock):
             "nsamples": self.header.nsamples // tfactor,
             "nchans": self.header.nchans // ffactor,
         }
-        return FilterbankBlock(new_ar, self.header.new_header(changes))
+        return FilterbankBlock(new_ar, self.header.new_header(changes), dm=self.dm)
 
     def get_tim(self) -> TimeSeries:
         """Sum across all frequencies for each time sample.
